@@ -3,15 +3,15 @@
 package control
 
 import (
-	"encoding/json"
-	"strings"
 	"bytes"
+	"encoding/json"
 	"fmt"
 	"math/rand"
 	"net/netip"
 	"os"
 	"runtime"
 	"strconv"
+	"strings"
 	"sync"
 	"testing"
 	"time"
@@ -342,7 +342,7 @@ func tpReplay(b *tpBehaviour, res *verifutil.Result, idx int) string {
 	convoyOfQ := map[int]*vActor{} // model queue id -> convoy actor
 	nextQid := 1                   // model allocates the lowest unused queue id in PCreate
 	usedQ := map[int]bool{}
-	pendingQ := map[string]int{}   // producer -> qid under construction
+	pendingQ := map[string]int{} // producer -> qid under construction
 	acceptOrder := map[string][]tpTask{}
 	pn := map[string]int{}
 	drift := ""
@@ -609,6 +609,28 @@ func TestVerifTaskPoolRandomWalk(t *testing.T) {
 					}
 				}
 				if a == nil || a.at == "done" || (a.at == "start" && last != nil && last.name == "p2") {
+					a = nil
+					directed = 14
+				}
+			case directed == 14:
+				// ... then the first producer emits its next task (it must land behind the second producer's, on the same queue)
+				for _, c := range live {
+					if c.name == "p1" {
+						a = c
+					}
+				}
+				if a == nil || (a.at == "start" && last != nil && last.name == "p1") {
+					a = nil
+					directed = 15
+				}
+			case directed == 15:
+				// ... and the worker goroutine that showed up last runs until it idles (with one queue per flow there is only one)
+				for _, c := range live {
+					if strings.HasPrefix(c.name, "convoy") {
+						a = c // actors are in order of appearance: the last one wins
+					}
+				}
+				if a == nil || a.at == "convoy.timer" || a.at == "convoy.exit" || a.at == "convoy.checked" {
 					a = nil
 					directed = 0
 				}
